@@ -225,6 +225,20 @@ pub fn units(prop: &str, tier: Tier) -> Option<Vec<Unit>> {
                 .probes(NOPROBE)
                 .alarm(CHK)
                 .unit(),
+                e1("k04deep-elision-pairs", format!("every K04deep grammar (emitters under bare repetition / separators / ignore_then / then_ignore / ignored / to_slice / padded_by) with <= {} nodes containing an output-eliding combinator vs its value-building formulation", pick(5, 6)), {
+                    let mut v = vec![];
+                    for g in en::k04_deep().upto(pick(5, 6)) {
+                        if en::has_elision(&g) {
+                            v.push(g.clone());
+                            v.push(en::explicit(&g));
+                        }
+                    }
+                    v
+                })
+                .alpha(&['a', 'b'], 4)
+                .probes(NOPROBE)
+                .pairs(PairMode::Exact)
+                .unit(),
                 e1("k04-elision-pairs", format!("every K04 grammar with <= {} nodes containing an output-eliding combinator vs its value-building formulation", pick(3, 4)), pairs)
                     .probes(NOPROBE)
                     .pairs(PairMode::Exact)
@@ -237,6 +251,16 @@ pub fn units(prop: &str, tier: Tier) -> Option<Vec<Unit>> {
                 class("kext-emissions-state", &en::k_ext(), pick(4, 4)).len(pick(4, 5)).cfg(CfgId::RichSt).probes(STATE).alarm(alarm).unit(),
                 class("kstate-emissions-state", &en::k_state(), pick(3, 4)).cfg(CfgId::RichSt).probes(STATE).alarm(alarm).unit(),
                 class("kemit-deep", &en::k_emit(), pick(5, 6)).alpha(&['a', 'b'], 4).cfg(CfgId::RichSt).probes(STATE).alarm(alarm).unit(),
+                e1("k02-emissions", "repeated()/separated_by() templates with emitting items and emitting separators (every bounds / flags / sink setting), each followed by a rest capture".into(), {
+                    let mut v = en::k02_rep(false);
+                    v.extend(en::k02_sep(false));
+                    v.into_iter().filter(|g| g.any_node(&|x| matches!(x, Validate(..)))).collect()
+                })
+                .alpha(&ABCOMMA, pick(4, 5))
+                .cfg(CfgId::RichSt)
+                .probes(STATE)
+                .alarm(alarm)
+                .unit(),
             ]
         }
         "C06" => {
@@ -277,6 +301,8 @@ pub fn units(prop: &str, tier: Tier) -> Option<Vec<Unit>> {
                 .kind(KindId::StrMb)
                 .alarm(alarm)
                 .unit(),
+                Unit::Custom { name: "iterinput".into(), run: Box::new(move |cx| eng_inputs::run("iterinput", tier, cx)) },
+                Unit::Custom { name: "cursor-machine".into(), run: Box::new(move |cx| eng_inputs::run("cursor-machine", tier, cx)) },
             ]
         }
         "C08" => {
